@@ -150,6 +150,11 @@ type Result struct {
 	Recov    int
 	Acq, Rel int
 	DblRel   int // ledger: releases of objects that were not outstanding
+
+	// RecovDefault: calls of the library's own recover handler (container.go logStackOnRecover) while
+	// the request was served, counted through the package logger (one "recover from panic situation"
+	// entry per call; see recoverLog in real.go). Sequential serving only; not part of Canon.
+	RecovDefault int
 }
 
 func kvs(kw string, l [][2]string, sortKeys bool) string {
